@@ -86,4 +86,122 @@ Proof.
   destruct (heval1 rec x s0 t0) as [[[] ?] ?]; try reflexivity. apply IH.
 Qed.
 
+
+(* ---- try ---- *)
+Fixpoint hrunh (rec : hrec_t) (hs : list (htypes * list hexpr)) (x : exn) (s : store) (t : trace) : H :=
+  match hs with
+  | [] => (HX x, s, t)
+  | (h, b) :: r => if handles issub h x then hseq rec b VNone s t else hrunh rec r x s t
+  end.
+Definition hfinish (rec : hrec_t) (final : option (list hexpr)) (r1 : H) : H :=
+  match r1 with
+  | (HT, s2, t2) => (HT, s2, t2)
+  | (o, s2, t2) =>
+      match final with
+      | None => (o, s2, t2)
+      | Some f => match hseq rec f VNone s2 t2 with
+                  | (HV _, s3, t3) => (o, s3, t3)
+                  | other => other
+                  end
+      end
+  end.
+Definition helse (rec : hrec_t) (orelse : option (list hexpr)) (v : val) (s : store) (t : trace) : H :=
+  match orelse with
+  | None | Some [] => (HV v, s, t)
+  | Some o => hseq rec o VNone s t
+  end.
+Definition hstage1 (rec : hrec_t) body hs orelse (s : store) (t : trace) : H :=
+  match hseq rec body VNone s t with
+  | (HX x, s1, t1) => hrunh rec hs x s1 t1
+  | (HV v, s1, t1) => helse rec orelse v s1 t1
+  | other => other
+  end.
+
+Lemma heval1_try rec body hs orelse final s t :
+  heval1 rec (HTry body hs orelse final) s t = hfinish rec final (hstage1 rec body hs orelse s t).
+Proof.
+  cbn [HySem.heval1]. cbv zeta. unfold hstage1. rewrite seq_is_hseq.
+  assert (Hh : forall hs x s t,
+    (fix runh (hs : list (htypes * list hexpr)) (x : exn) (s : store) (t : trace) {struct hs} :=
+       match hs with
+       | [] => (HX x, s, t)
+       | (h, b) :: r =>
+           if handles issub h x
+           then (fix seq (es : list hexpr) (last : val) (s : store) (t : trace) {struct es} :=
+                   match es with
+                   | [] => (HV last, s, t)
+                   | x :: r => match heval1 rec x s t with
+                               | (HV v, s1, t1) => seq r v s1 t1
+                               | other => other
+                               end
+                   end) b VNone s t
+           else runh r x s t
+       end) hs x s t = hrunh rec hs x s t).
+  { clear. induction hs as [|[h b] r IH]; intros x s t; [reflexivity|]. cbn [hrunh].
+    destruct (handles issub h x); [apply seq_is_hseq | apply IH]. }
+  assert (Fin : forall r1 : H,
+    match r1 with
+    | (HT, s2, t2) => (HT, s2, t2)
+    | (o, s2, t2) =>
+        match final with
+        | None => (o, s2, t2)
+        | Some f =>
+            match (fix seq (es : list hexpr) (last : val) (s : store) (t : trace) {struct es} :=
+                     match es with
+                     | [] => (HV last, s, t)
+                     | x :: r => match heval1 rec x s t with
+                                 | (HV v, s1, t1) => seq r v s1 t1
+                                 | other => other
+                                 end
+                     end) f VNone s2 t2 with
+            | (HV _, s3, t3) => (o, s3, t3)
+            | other => other
+            end
+        end
+    end = hfinish rec final r1).
+  { intros [[o s2] t2]. unfold hfinish. destruct o; try reflexivity; destruct final; try reflexivity; rewrite seq_is_hseq; reflexivity. }
+  rewrite Fin. f_equal.
+  destruct (hseq rec body VNone s t) as [[[v|x| | |] s1] t1]; try reflexivity.
+  - unfold helse. destruct orelse as [[|y o]|]; try reflexivity. exact (seq_is_hseq rec (y :: o) VNone s1 t1).
+  - apply Hh.
+Qed.
+
+(* ---- while ---- *)
+Definition hwnext (rec : hrec_t) (w : hexpr) (r : H) : H :=
+  match r with
+  | (HV _, s2, t2) | (HC, s2, t2) => rec w s2 t2
+  | (HB, s2, t2) => (HV VNone, s2, t2)
+  | other => other
+  end.
+Definition else_forms (orelse : option (list hexpr)) : list hexpr :=
+  (match orelse with Some o => o | None => [] end) ++ [HConst VNone].
+Definition hwcond (rec : hrec_t) (w : hexpr) (r : H) (k : val -> store -> trace -> H) : H :=
+  match r with
+  | (HV v, s1, t1) => k v s1 t1
+  | (HB, s1, t1) => (HV VNone, s1, t1)
+  | (HC, s1, t1) => rec w s1 t1
+  | other => other
+  end.
+Lemma heval1_while rec c body orelse s t :
+  heval1 rec (HWhile c body orelse) s t =
+  hwcond rec (HWhile c body orelse) (heval1 rec c s t) (fun v s1 t1 =>
+    if truthy v then hwnext rec (HWhile c body orelse) (hseq rec body VNone s1 t1)
+    else rec (HDo (else_forms orelse)) s1 t1).
+Proof.
+  cbn [HySem.heval1]. cbv zeta. unfold hwcond. destruct (heval1 rec c s t) as [[[v| | | |] s1] t1]; try reflexivity.
+  destruct (truthy v); [|reflexivity].
+  rewrite seq_is_hseq. unfold hwnext. destruct (hseq rec body VNone s1 t1) as [[[] ?] ?]; reflexivity.
+Qed.
+Lemma heval1_break rec s t : heval1 rec HBreak s t = (HB, s, t). Proof. reflexivity. Qed.
+Lemma heval1_continue rec s t : heval1 rec HContinue s t = (HC, s, t). Proof. reflexivity. Qed.
+
+Lemma hseq_app rec a b : forall last s t,
+  hseq rec (a ++ b) last s t = bindV (hseq rec a last s t) (fun v s1 t1 => hseq rec b v s1 t1).
+Proof.
+  induction a as [|x a IH]; intros last s t; [reflexivity|]. cbn [app hseq].
+  destruct (heval1 rec x s t) as [[[] ?] ?]; cbn [bindV]; try reflexivity. apply IH.
+Qed.
+Lemma hseq_last rec es v v' s t : es <> [] -> hseq rec es v s t = hseq rec es v' s t.
+Proof. destruct es; [congruence|]. reflexivity. Qed.
+
 End Facts.
